@@ -147,6 +147,13 @@ def operand_matrix():
     for vname, Vn in (("vecvar", _x), ("vexpr", _xe), ("slice", ["slice", _v, 1, 4, None]), ("row-of-mexpr", ["row", _Ae, 1]), ("col-of-matvar", ["col", _A, 1])):
         for i_ in (-1, -2, -(3 if vname != "col-of-matvar" else 2)):
             out.append((f"index {vname}[neg]", "S", ["el", Vn, i_], False))
+    # quadratic forms whose constant matrix is an integer / boolean container, evaluated at non-integer points
+    for form in ("int64", "int8", "uint8", "bool_", "list"):
+        Qi = [[1, 0, 1], [1, 1, 0], [0, 1, 1]] if form == "bool_" else ([[2, 1, 0], [3, 1, 0], [0, 1, 3]] if form == "uint8" else [[2, -1, 0], [1, 3, 0], [-1, 1, 3]])
+        out.append((f"quadratic form Q<{form}>", "S", ["qf", _x, Qi, form], False))
+        out.append((f"quadratic form of vexpr Q<{form}>", "S", ["qf", _xe, Qi, form], False))
+        if form != "list":
+            out.append((f"x.dot(Q<{form}> @ x)", "S", ["dotQ", _x, Qi, _x, form], False))
     # coefficient data of tiny uniform scale (exact power of two; observations are scaled back before the comparison)
     t_ = 2.0 ** -30
     tiny3 = ["arr", [1.5 * t_, -2.0 * t_, 0.25 * t_]]
@@ -438,6 +445,25 @@ def run_case(rec, rng, cell, kind, node, decls, expect_mismatch=None, check_name
             if not ok:
                 bad("value-mismatch", got=g[:8].tolist(), want=w[:8].tolist(), point=pt)
                 return
+    # the caller's values mapping reused: evaluated, updated in place, evaluated again with the same dict object
+    if built and len(pts) >= 2 and hasattr(obj, "evaluate"):
+        try:
+            d_ = dict(pts[0])
+            obj.evaluate(d_)
+            d_.update(pts[1])
+            got_b = np.asarray(obj.evaluate(d_), dtype=float)
+            want_b, t_b = ref_array(D, kind, node, pts[1])
+            rec.cmp(1, cell)
+            rec.events["same-mapping-comparisons"] += 1
+            if np.all(np.isfinite(want_b)) and t_b.regular(1e-3) and (tuple(np.shape(got_b)) != tuple(np.shape(want_b)) or not all(
+                    close(g_, w_, 2e-6 if "npf32" in A.canon(node) else RTOL, t_b.mag)[0] for g_, w_ in zip(got_b.reshape(-1), np.asarray(want_b, float).reshape(-1)))):
+                bad("stale-value-after-in-place-update-of-the-values-mapping", got=got_b.reshape(-1)[:8].tolist(), want=np.asarray(want_b, float).reshape(-1)[:8].tolist())
+                return
+        except (R.ShapeError, R.OutOfModel):
+            pass
+        except Exception as ex:
+            bad("evaluate-raises-on-reused-mapping:" + type(ex).__name__, error=repr(ex)[:200])
+            return
     # operands must be intact after they were used: every intermediate vector / matrix object is observed again
     import optyx
 
